@@ -368,7 +368,12 @@ class Other:
 
 
 class _Obj:
-    pass
+    """an opaque non-JSON object; every instance stands for the same datum (data_real builds a new one per call)"""
+    def __eq__(self, other):
+        return type(other) is type(self)
+
+    def __hash__(self):
+        return 0
 
 
 _Obj.__name__ = "object"
